@@ -11,7 +11,9 @@
 #ifndef VF_EXPLORER_H
 #define VF_EXPLORER_H
 
+#ifndef VF_MAXCH
 #define VF_MAXCH 192
+#endif
 #define VF_NKINDS 8
 enum { VF_K_READ = 0, VF_K_OP = 1, VF_K_ARG = 2, VF_K_ALLOC = 3, VF_K_CALL = 4, VF_K_FAULT = 5, VF_K_SCHED = 6, VF_K_MISC = 7 };
 
